@@ -866,6 +866,80 @@ def integrate_defs(tree, consts):
     return [INTEGRATE_PRELUDE, d1, d2, d3, skeleton]
 
 
+# ---------------------------------------------------------------------------------------------------------------------
+# (8) VMNetwork.__init__ -> genInitNode / genInit                                                       (build)
+#
+#   in front of the loop (checked)   `self.interfaces = {}` and `self.netconfigs = {}` are assigned exactly once, at the top
+#                                    level, and nothing else mentions them or calls integrate_node: the registry is empty
+#                                    (the model's `init`, with the interface objects created up front)
+#   the loop                         must be the LAST statement besides logging: `for vm_name in params.objects("vms"):`;
+#                                    the statements that get / create the vm object are pinned verbatim (no registry
+#                                    access), the last two — the node object and the call of integrate_node — are
+#                                    translated (genInitNode); the loop itself is the fixed skeleton `genInit` over the
+#                                    number of nics of every vm, in order
+
+INIT_VM = """
+vm = env.get_vm(vm_name)
+vm_params = params.object_params(vm_name)
+if vm is None:
+    vm = env.create_vm(params.get('vm_type'), params.get('target'), vm_name, vm_params, '/tmp')
+else:
+    vm.params = vm_params
+"""
+INIT_STMTS = {"self.nodes[vm_name] = self.new_node(vm)": "newNode",
+              "self.integrate_node(self.nodes[vm_name])": "genIntegrateNode first count"}
+INIT_PRELUDE = [
+    "/-- `self.nodes[vm_name] = self.new_node(vm)`: a node object without interfaces; not part of the registry state -/",
+    "def newNode : NetM Unit := pure ()",
+]
+INIT_DOC = "`VMNetwork.__init__` of avocado_i2n/vmnet/network.py, cut by harness/pygen_pxnet.py: "
+
+
+def init_defs(tree, consts):
+    fn = pygen.find_function(tree, "VMNetwork.__init__")
+    _args(fn, ["self", "params", "env"])
+    where = f"__init__:{fn.lineno}"
+    body = _strip_logs(_body(fn), where)
+    if not body or not isinstance(body[-1], ast.For) or any(isinstance(n, (ast.For, ast.While, ast.Try, ast.With))
+                                                            for st in body[:-1] for n in ast.walk(st)):
+        raise Unsupported(f"{where}: the constructor no longer ends with its one loop over the vms")
+    front, loop = body[:-1], body[-1]
+    for attr in ("interfaces", "netconfigs"):
+        hits = [st for st in front if f"self.{attr}" in ast.unparse(st)]
+        if len(hits) != 1 or pygen.dump_stmts(hits) != pygen.norm_block(f"self.{attr} = {{}}"):
+            raise Unsupported(f"{where}: `self.{attr} = {{}}` is no longer the only statement in front of the loop that "
+                              f"mentions self.{attr}")
+    for st in front:
+        if "integrate_node" in ast.unparse(st) or isinstance(st, (ast.Return, ast.Raise)):
+            raise Unsupported(f"{where}: `{ast.unparse(st)[:60]}` in front of the loop")
+    if loop.orelse or ast.unparse(loop.target) != "vm_name" or ast.unparse(loop.iter) != "params.objects('vms')":
+        raise Unsupported(f"{where}: the loop is no longer `for vm_name in params.objects('vms'):`")
+    lbody = _strip_logs(loop.body, where)
+    _no_jumps(lbody, where)
+    if len(lbody) < 3:
+        raise Unsupported(f"{where}: the loop body has {len(lbody)} statements")
+    _pinned(lbody[:-2], INIT_VM, where, "the statements of the loop that get / create the vm object")
+    # the model has no registry of nodes: `self.nodes[vm_name]` read before it is stored (KeyError) would be invisible in
+    # the generated Lean, so the ORDER of the two statements is checked here (mutant `init-node-after`)
+    _pinned(lbody[-2:], "\n".join(INIT_STMTS), where, "the node object stored, THEN integrated (the last two statements)")
+    node_fn = _synth("init_node", [], lbody[-2:], loop)
+    node_spec = Spec("genInitNode", binders=[("first", "Nat"), ("count", "Nat")], params={}, ret="unit", monad="NetM",
+                     stmts=INIT_STMTS,
+                     doc=INIT_DOC + "the last two statements of the loop over the vms; the interface objects of this vm "
+                                    "are `first … first+count-1`")
+    d1 = pygen.translate(node_fn, node_spec, consts)
+    skeleton = [
+        "/-- `for vm_name in params.objects(\"vms\"):` (matched structurally): `counts` = the number of nics of every vm, in",
+        "order; the interface objects are numbered in creation order -/",
+        "def genInit : Nat → List Nat → NetM Unit",
+        "  | _, [] => pure ()",
+        "  | first, count :: rest => do",
+        "    genInitNode first count",
+        "    genInit (first + count) rest",
+    ]
+    return [INIT_PRELUDE, d1, skeleton]
+
+
 def network_source(path=None):
     path = path or pygen._src("PYGEN_NETWORK_SRC", NETWORK)
     tree = ast.parse(open(path).read(), filename=path)
@@ -873,6 +947,7 @@ def network_source(path=None):
     defs = [NETWORK_PRELUDE]
     defs += reattach_defs(tree, consts)
     defs += integrate_defs(tree, consts)
+    defs += init_defs(tree, consts)
     return pygen.render_file("harness/pygen_pxnet.py:extract_net (called by harness/props/c18.py:extract) from "
                              "avocado_i2n/vmnet/network.py", ["I2N.Extracted.GenNet"], "I2N.Extracted.GenNetwork",
                              ["I2N.Net", "I2N.Extracted.GenNet"], defs)
